@@ -1,9 +1,662 @@
-//! I/O, serial, ODK and port generators: C15–C18, C20.
+//! I/O, serial, ODK and port generators and oracles: C15–C18, C20.
+#![allow(dead_code)]
+
+use flipdot_core::{Address, ChunkCount, Data, Frame, Message, MsgType, Offset, PageFlipStyle, SignType, State};
+
+use super::vsign::{sd, tiny_cfg};
+use super::{indep_dec, indep_enc, random_len, ADDRS};
 use crate::util::*;
 use crate::Out;
 
-pub fn c15(_thorough: bool, _rng: &mut Rng, _out: &mut Out) {}
-pub fn c16(_thorough: bool, _rng: &mut Rng, _out: &mut Out) {}
-pub fn c17(_thorough: bool, _rng: &mut Rng, _out: &mut Out) {}
-pub fn c18(_thorough: bool, _rng: &mut Rng, _out: &mut Out) {}
-pub fn c20(_thorough: bool, _rng: &mut Rng, _out: &mut Out) {}
+fn enc_nl(a: u16, t: u8, d: &[u8]) -> Vec<u8> {
+    let mut v = indep_enc(a, t, d);
+    v.extend_from_slice(b"\r\n");
+    v
+}
+
+/// All compositions of `n` into positive parts, as lists of part sizes.
+fn compositions(n: usize) -> Vec<Vec<usize>> {
+    if n == 0 {
+        return vec![vec![]];
+    }
+    let mut out = vec![];
+    for mask in 0..(1u32 << (n - 1)) {
+        let mut parts = vec![];
+        let mut cur = 1;
+        for i in 0..n - 1 {
+            if mask & (1 << i) != 0 {
+                parts.push(cur);
+                cur = 1;
+            } else {
+                cur += 1;
+            }
+        }
+        parts.push(cur);
+        out.push(parts);
+    }
+    out
+}
+
+/// Expected results of `n` reads over an event list, simulated at byte granularity from the
+/// statement of the property (line = up to and including the first LF; an error event inside a line
+/// makes that read an I/O error; zero-length read ends the line).
+fn expect_reads(n: usize, evs: &[String]) -> (Vec<String>, Vec<u8>) {
+    #[derive(Clone)]
+    enum E {
+        B(u8),
+        I,
+        Err,
+        Z,
+    }
+    let mut flat: Vec<E> = vec![];
+    for e in evs {
+        match e.as_str() {
+            "i" => flat.push(E::I),
+            "e" => flat.push(E::Err),
+            "z" => flat.push(E::Z),
+            d => {
+                for b in parse_hex(&d[2..]).unwrap() {
+                    flat.push(E::B(b));
+                }
+            }
+        }
+    }
+    let mut pos = 0;
+    let mut results = vec![];
+    for _ in 0..n {
+        let mut line: Vec<u8> = vec![];
+        let mut io_err = false;
+        while pos < flat.len() {
+            let e = flat[pos].clone();
+            pos += 1;
+            match e {
+                E::B(b) => {
+                    line.push(b);
+                    if b == b'\n' {
+                        break;
+                    }
+                }
+                E::I => {}
+                E::Err => {
+                    io_err = true;
+                    break;
+                }
+                E::Z => break,
+            }
+        }
+        results.push(if io_err { "err io".to_string() } else { indep_dec(&line) });
+    }
+    let rest: Vec<u8> = flat[pos..].iter().filter_map(|e| if let E::B(b) = e { Some(*b) } else { None }).collect();
+    (results, rest)
+}
+
+fn read_case(out: &mut Out, n: usize, evs: Vec<String>, nt: bool) {
+    let line = format!("io reads {} {}", n, evs.join(" ")).trim_end().to_string();
+    let i = out.case(line, nt);
+    let (res, rest) = expect_reads(n, &evs);
+    let want = format!("{} | rest={}", res.join(" ; "), to_hex(&rest));
+    if out.impls[i] != want {
+        out.fail(i, format!("C15 Frame::read results / leftover bytes differ from 'one line per read': got '{}', expected '{}'", trunc(&out.impls[i]), trunc(&want)));
+    }
+    for r in res {
+        out.stat(&format!("read.{}", r.split(' ').take(2).collect::<Vec<_>>().join(".")));
+    }
+}
+
+fn trunc(s: &str) -> String {
+    if s.len() > 160 {
+        format!("{}…", &s[..160])
+    } else {
+        s.to_string()
+    }
+}
+
+fn chunked(stream: &[u8], parts: &[usize]) -> Vec<String> {
+    let mut v = vec![];
+    let mut p = 0;
+    for k in parts {
+        v.push(format!("d:{}", hex_of(&stream[p..p + k])));
+        p += k;
+    }
+    v
+}
+
+pub fn c15(thorough: bool, rng: &mut Rng, out: &mut Out) {
+    out.rule = "Frame::read: every composition of a 13-byte (quick) / 16-byte (thorough) stream into read chunk sizes; every placement of <= 2 interrupts; a hard error / zero-length read at every call index; 1..3 frames followed by trailing bytes with random chunking and interrupts, read k+1 times; Frame::write: every composition of the 13-byte encoding into accepted sizes, interrupts, error / zero-length write at every index, random beyond; non-trivial = streams containing at least one complete valid frame line, or writes that must deliver a whole frame; distinct = distinct case line".into();
+    out.exhaustive_note = "compositions, interrupt placements and error indices are enumerated completely for the short streams".into();
+    let f0 = enc_nl(0x7F, 2, &[]); // 13 bytes
+    // every composition of one frame (+ 3 trailing bytes in thorough)
+    let mut stream = f0.clone();
+    if thorough {
+        stream.extend_from_slice(b"xyz");
+    }
+    for parts in compositions(stream.len()) {
+        read_case(out, 2, chunked(&stream, &parts), true);
+    }
+    // interrupts: <= 2 placements among single-byte chunks of frame + trailing byte
+    let mut s2 = f0.clone();
+    s2.push(b'Q');
+    let singles: Vec<String> = s2.iter().map(|b| format!("d:{:02X}", b)).collect();
+    for i in 0..=singles.len() {
+        for j in i..=singles.len() {
+            let mut evs = singles.clone();
+            evs.insert(j, "i".into());
+            evs.insert(i, "i".into());
+            read_case(out, 2, evs, true);
+        }
+        let mut evs = singles.clone();
+        evs.insert(i, "i".into());
+        read_case(out, 2, evs, true);
+    }
+    // an error / zero read at every call index
+    for kind in ["e", "z"] {
+        for i in 0..=singles.len() {
+            let mut evs = singles.clone();
+            evs.insert(i, kind.into());
+            read_case(out, 3, evs, true);
+        }
+    }
+    // back-to-back frames + trailing bytes, random fragmentation
+    let n = if thorough { 6000 } else { 600 };
+    for _ in 0..n {
+        let k = rng.range(1, 3) as usize;
+        let mut stream: Vec<u8> = vec![];
+        for _ in 0..k {
+            let len = if rng.chance(70) { rng.range(0, 6) as usize } else { random_len(rng) };
+            let d = rng.bytes(len);
+            let mut f = enc_nl(rng.next() as u16, rng.byte(), &d);
+            match rng.below(12) {
+                0 => f = f.to_ascii_lowercase(),
+                1 => {
+                    let p = rng.below(f.len() as u64) as usize;
+                    f[p] = rng.byte();
+                }
+                2 => {
+                    // bare LF terminator
+                    let l = f.len();
+                    let _ = f.remove(l - 2);
+                }
+                _ => {}
+            }
+            stream.extend_from_slice(&f);
+        }
+        let tl = rng.below(6) as usize;
+        stream.extend(rng.bytes(tl));
+        let mut evs = vec![];
+        let mut p = 0;
+        while p < stream.len() {
+            let c = (rng.range(1, 9) as usize).min(stream.len() - p);
+            evs.push(format!("d:{}", hex_of(&stream[p..p + c])));
+            p += c;
+            if rng.chance(15) {
+                evs.push("i".into());
+            }
+            if rng.chance(2) {
+                evs.push("e".into());
+            }
+            if rng.chance(1) {
+                evs.push("z".into());
+            }
+        }
+        read_case(out, k + 1, evs, true);
+    }
+    // ---- write
+    let frames: Vec<(u16, u8, Vec<u8>)> = vec![(0x7F, 2, vec![]), (0xABCD, 0, vec![1, 2, 3])];
+    for (a, t, d) in &frames {
+        let w = enc_nl(*a, *t, d);
+        let comps = if w.len() <= 13 || thorough { compositions(w.len().min(16)) } else { vec![] };
+        for parts in comps {
+            if parts.iter().sum::<usize>() != w.len() {
+                continue;
+            }
+            let evs: Vec<String> = parts.iter().map(|k| format!("a:{}", k)).collect();
+            write_case(out, *a, *t, d, evs);
+        }
+        for i in 0..=w.len() {
+            for kind in ["e", "a:0", "i"] {
+                let mut evs: Vec<String> = (0..w.len()).map(|_| "a:1".to_string()).collect();
+                evs.insert(i, kind.into());
+                write_case(out, *a, *t, d, evs);
+            }
+        }
+    }
+    let n = if thorough { 4000 } else { 400 };
+    for _ in 0..n {
+        let len = random_len(rng);
+        let d = rng.bytes(len);
+        let mut evs = vec![];
+        for _ in 0..rng.below(40) {
+            evs.push(match rng.below(20) {
+                0 => "e".to_string(),
+                1 => "a:0".to_string(),
+                2 | 3 | 4 => "i".to_string(),
+                _ => format!("a:{}", rng.range(1, 40)),
+            });
+        }
+        write_case(out, rng.next() as u16, rng.byte(), &d, evs);
+    }
+}
+
+fn write_case(out: &mut Out, a: u16, t: u8, d: &[u8], evs: Vec<String>) {
+    let line = format!("io write {:04X} {:02X} {} | {}", a, t, to_hex(d), evs.join(" ")).trim_end().to_string();
+    let i = out.case(line, true);
+    // expectation from the property: whole encoding delivered unless an error / zero write happens
+    // while bytes remain
+    let w = enc_nl(a, t, d);
+    let mut left = w.len();
+    let mut failed = false;
+    for e in &evs {
+        if left == 0 {
+            break;
+        }
+        match e.as_str() {
+            "i" => {}
+            "e" | "a:0" => {
+                failed = true;
+                break;
+            }
+            x => left -= x[2..].parse::<usize>().unwrap().min(left),
+        }
+    }
+    let delivered = if failed { &w[..w.len() - left] } else { &w[..] };
+    let want = format!("{} {}", if failed { "err" } else { "ok" }, to_hex(delivered));
+    out.stat(if failed { "write.err" } else { "write.ok" });
+    if out.impls[i] != want {
+        out.fail(i, format!("C15 Frame::write delivered / reported '{}', expected '{}'", trunc(&out.impls[i]), trunc(&want)));
+    }
+}
+
+// ---------------------------------------------------------------------------------------------
+// C16 / C18 serial bus
+
+fn expects_reply(m: &Message<'_>) -> bool {
+    matches!(m, Message::Hello(_) | Message::QueryState(_) | Message::RequestOperation(_, _))
+}
+
+fn msg_wire(m: &Message<'static>) -> Vec<u8> {
+    let tok = show_msg(m);
+    // independent of Frame::from: derive (addr, type, data) from the protocol table
+    let p: Vec<&str> = tok.split(',').collect();
+    const STATE_CODES: [u8; 13] = [0x0F, 0x0D, 0x07, 0x0C, 0x03, 0x01, 0x0B, 0x10, 0x13, 0x12, 0x11, 0x00, 0x08];
+    const REQ_CODES: [u8; 6] = [0xA1, 0xA2, 0xA9, 0xAA, 0xA6, 0xA7];
+    const ACK_CODES: [u8; 6] = [0x95, 0x91, 0x96, 0x97, 0x93, 0x94];
+    let a = parse_u16(p[1]).unwrap();
+    let (t, d): (u8, Vec<u8>) = match p[0] {
+        "SD" => (0, parse_hex(p[2]).unwrap()),
+        "CS" => (1, vec![]),
+        "HE" => (2, vec![0xFF]),
+        "QS" => (2, vec![0x00]),
+        "GB" => (2, vec![0x55]),
+        "RS" => (4, vec![STATE_CODES[p[2].parse::<usize>().unwrap()]]),
+        "RO" => (3, vec![REQ_CODES[p[2].parse::<usize>().unwrap()]]),
+        "AK" => (5, vec![ACK_CODES[p[2].parse::<usize>().unwrap()]]),
+        "PC" => (6, vec![0x00]),
+        _ => (parse_u8(p[2]).unwrap(), parse_hex(p[3]).unwrap()),
+    };
+    enc_nl(a, t, &d)
+}
+
+pub fn message_kinds(rng: &mut Rng, n_sd: usize) -> Vec<Message<'static>> {
+    let mut v: Vec<Message<'static>> = vec![];
+    for a in [0u16, 3, 0x7F, 0xFFFF, rng.next() as u16] {
+        v.push(Message::Hello(Address(a)));
+        v.push(Message::QueryState(Address(a)));
+        v.push(Message::Goodbye(Address(a)));
+        v.push(Message::PixelsComplete(Address(a)));
+        v.push(Message::DataChunksSent(ChunkCount(a)));
+    }
+    for o in OPS {
+        v.push(Message::RequestOperation(Address(rng.next() as u16), o));
+        v.push(Message::AckOperation(Address(3), o));
+    }
+    for s in STATES {
+        v.push(Message::ReportState(Address(rng.next() as u16), s));
+    }
+    v.push(Message::Unknown(Frame::new(Address(9), MsgType(0x42), Data::try_new(vec![1, 2]).unwrap())));
+    v.push(Message::Unknown(Frame::new(Address(9), MsgType(2), Data::try_new(vec![0x77]).unwrap())));
+    for k in 0..n_sd {
+        let len = match k % 5 {
+            0 => 0,
+            1 => 1,
+            2 => 16,
+            3 => 255,
+            _ => rng.range(2, 40) as usize,
+        };
+        v.push(sd(if k % 2 == 0 { 0 } else { (k * 16) as u16 }, &rng.bytes(len)));
+    }
+    v
+}
+
+fn reply_tapes(rng: &mut Rng) -> Vec<(String, Vec<u8>)> {
+    let mut v: Vec<(String, Vec<u8>)> = vec![];
+    for s in STATES {
+        let m = Message::ReportState(Address(3), s);
+        v.push((show_msg(&m), msg_wire(&m)));
+    }
+    for o in OPS {
+        let m = Message::AckOperation(Address(3), o);
+        v.push((show_msg(&m), msg_wire(&m)));
+    }
+    v.push(("UN,0009,42,0102".into(), enc_nl(9, 0x42, &[1, 2])));
+    v.push(("SD,0000,AA".into(), enc_nl(0, 0, &[0xAA])));
+    v.push(("err".into(), b":0100030\r\n".to_vec())); // malformed
+    v.push(("err".into(), b":01000304FF00\r\n".to_vec())); // bad checksum
+    v.push(("err".into(), vec![])); // nothing: timeout / end of stream
+    v.push(("err".into(), b"\r\n".to_vec()));
+    let _ = rng;
+    v
+}
+
+fn serial_oracle(out: &mut Out, i: usize, m: &Message<'static>, want_reply: &str, extra: &[u8], write_fails: bool, read_err: bool) {
+    let got = out.impls[i].clone();
+    let wire = msg_wire(m);
+    let exp = expects_reply(m);
+    let want = if write_fails {
+        None
+    } else {
+        let res = if exp {
+            if read_err || want_reply == "err" {
+                "err".to_string()
+            } else {
+                format!("ok {}", want_reply)
+            }
+        } else {
+            "ok none".to_string()
+        };
+        Some(format!("W:{}:1{} => {}", hex_of(&wire), if exp { " R" } else { "" }, res))
+    };
+    match want {
+        Some(w) => {
+            if !got.starts_with(&w) {
+                out.fail(i, format!("C16 serial exchange for {}: got '{}', expected '{}…'", trunc(&show_msg(m)), trunc(&got), trunc(&w)));
+            } else if !read_err {
+                // exactly one line was consumed: the extra bytes are still there
+                let rest = got.rsplit("rest=").next().unwrap_or("");
+                let want_rest = if exp { to_hex(extra) } else { String::new() };
+                if exp && rest != want_rest {
+                    out.fail(i, format!("C16 after the reply line the port has '{}' left, expected '{}'", rest, want_rest));
+                }
+            }
+        }
+        None => {
+            if !got.contains("=> err") || got.contains(" R ") {
+                out.fail(i, format!("C16 a failed write must be returned as an error without reading: '{}'", trunc(&got)));
+            }
+        }
+    }
+}
+
+pub fn c16(thorough: bool, rng: &mut Rng, out: &mut Out) {
+    out.rule = "every message kind (hello / query / goodbye / pixels-complete / chunk count over 5 addresses, 6 requests, 6 acks, 13 reports, unknown frames, data chunks of length 0/1/16/255/random) x reply tapes (13 states, 6 acks, unknown, data, malformed, bad checksum, empty, bare CRLF) each followed by extra bytes; a write failure at the first and at a later write call; a read failure; non-trivial = every case; distinct = distinct case line".into();
+    out.exhaustive_note = "kinds x reply tapes complete for the listed parameter values; data chunk cases limited (each sleeps 30 ms)".into();
+    let n_sd = if thorough { 40 } else { 10 };
+    let kinds = message_kinds(rng, n_sd);
+    let tapes = reply_tapes(rng);
+    for m in &kinds {
+        let exp = expects_reply(m);
+        let is_sd = matches!(m, Message::SendData(..));
+        let tsel: Vec<&(String, Vec<u8>)> = if exp {
+            tapes.iter().collect()
+        } else if is_sd {
+            tapes.iter().take(1).collect()
+        } else {
+            tapes.iter().take(3).collect()
+        };
+        for (want_reply, tape) in tsel {
+            let extra = [0xFFu8, b':', b'0'];
+            let mut stream = tape.clone();
+            let complete_line = stream.ends_with(b"\n");
+            if complete_line {
+                stream.extend_from_slice(&extra);
+            }
+            // fragment the tape
+            let mut evs = vec![];
+            let mut p = 0;
+            while p < stream.len() {
+                let c = (rng.range(1, 7) as usize).min(stream.len() - p);
+                evs.push(format!("d:{}", hex_of(&stream[p..p + c])));
+                p += c;
+                if rng.chance(10) {
+                    evs.push("i".into());
+                }
+            }
+            let wr = if rng.chance(50) { "a:5 i a:3".to_string() } else { String::new() };
+            let line = format!("serial {} | {} | {}", show_msg(m), evs.join(" "), wr).trim_end().to_string();
+            let i = out.case(line, true);
+            out.stat(&format!("serial.{}.{}", &show_msg(m)[..2], &want_reply[..2.min(want_reply.len())]));
+            serial_oracle(out, i, m, want_reply, if complete_line { &extra } else { &[] }, false, false);
+        }
+        if is_sd && !thorough {
+            continue;
+        }
+        // failures at the port
+        let tape = msg_wire(&Message::ReportState(Address(3), State::Unconfigured));
+        for wr in ["e", "a:4 e", "a:0", "a:2 i a:0"] {
+            let line = format!("serial {} | d:{} | {}", show_msg(m), hex_of(&tape), wr);
+            let i = out.case(line, true);
+            out.stat("serial.write-failure");
+            serial_oracle(out, i, m, "", &[], true, false);
+        }
+        if exp {
+            for rd in ["e", "d:3A3031 e", "i i e"] {
+                let line = format!("serial {} | {} |", show_msg(m), rd);
+                let i = out.case(line, true);
+                out.stat("serial.read-failure");
+                serial_oracle(out, i, m, "", &[], false, true);
+            }
+        }
+    }
+}
+
+pub fn c18(thorough: bool, rng: &mut Rng, out: &mut Out) {
+    out.rule = "every message kind x every reply kind (13 states, 6 acks, unknown frame) on an instrumented port with a monotonic clock at the write / read boundaries; the gap after the last write (to the first read or to return) and after the last read (to return) is classified: >= the pacing delay = paced, minimum over up to 5 trials below half the delay = unpaced, otherwise ambiguous (reported); compared with the model's sleep events and with the property directly; non-trivial = every case; distinct = distinct case line".into();
+    out.exhaustive_note = "message kinds x reply kinds complete; parameters sampled".into();
+    let kinds = message_kinds(rng, if thorough { 12 } else { 5 });
+    let tapes = reply_tapes(rng);
+    let mut seen_kind: std::collections::HashSet<String> = std::collections::HashSet::new();
+    for m in &kinds {
+        let tok = show_msg(m);
+        let kind = tok[..2].to_string();
+        let exp = expects_reply(m);
+        // one address per kind is enough for timing (except thorough)
+        if !thorough && !matches!(m, Message::SendData(..)) && !seen_kind.insert(format!("{}{}", kind, if let Message::RequestOperation(_, o) = m { op_idx(*o) } else { 0 })) {
+            continue;
+        }
+        let tsel: Vec<&(String, Vec<u8>)> = if exp { tapes.iter().take(20).collect() } else { tapes.iter().take(1).collect() };
+        for (want_reply, tape) in tsel {
+            let line = format!("serialt {} | d:{} |", tok, if tape.is_empty() { "0A".to_string() } else { hex_of(tape) });
+            let i = out.case(line, true);
+            let got = out.impls[i].clone();
+            let paced_send = matches!(m, Message::SendData(..));
+            let paced_recv = exp && (want_reply == "RS,0003,8" || want_reply == "RS,0003,10");
+            let has30 = got.contains(" S:30");
+            let has100 = got.contains(" S:100");
+            out.stat(&format!("pace.{}.send{}.recv{}", kind, has30 as u8, has100 as u8));
+            if got.contains("S:?") {
+                out.fail(i, format!("C18 ambiguous delay (neither clearly paced nor clearly unpaced): {}", trunc(&got)));
+            } else if has30 != paced_send {
+                out.fail(i, format!("C18 30 ms pacing after the write: observed {}, required {} for {}", has30, paced_send, trunc(&tok)));
+            } else if has100 != paced_recv {
+                out.fail(i, format!("C18 100 ms pacing after the reply {}: observed {}, required {}", want_reply, has100, paced_recv));
+            }
+        }
+    }
+}
+
+// ---------------------------------------------------------------------------------------------
+// C20 port set-up
+
+pub fn c20(thorough: bool, rng: &mut Rng, out: &mut Out) {
+    out.rule = "every prior PortSettings value (11 standard baud rates + BaudOther{0,19200,4000000} x 4 character sizes x 3 parities x 2 stop bits x 3 flow controls = 1008) x failure injected at read_settings / set_baud_rate / write_settings / set_timeout / nowhere x {SerialSignBus::try_new, Odk::try_new, configure_port with a caller timeout}; non-trivial = every case; distinct = distinct case line".into();
+    out.exhaustive_note = "the product is enumerated completely".into();
+    let mut bauds: Vec<String> = (0..11).map(|b| b.to_string()).collect();
+    bauds.extend(["o0".to_string(), "o19200".to_string(), "o4000000".to_string()]);
+    let t = rng.range(1, 60_000);
+    let cfg_kind = format!("cfg:{}", t);
+    for b in &bauds {
+        for c in 0..4 {
+            for p in 0..3 {
+                for s in 0..2 {
+                    for f in 0..3 {
+                        for fail in ["never", "read", "baud", "write", "timeout"] {
+                            for kind in ["serial", "odk", cfg_kind.as_str()] {
+                                if !thorough && kind != "serial" && fail != "never" && (c + p + s + f) % 3 != 0 {
+                                    continue;
+                                }
+                                let i = out.case(format!("port {} {},{},{},{},{} {}", kind, b, c, p, s, f, fail), true);
+                                out.stat(&format!("port.{}.{}", &kind[..3], fail));
+                                let got = out.impls[i].clone();
+                                if fail == "never" {
+                                    let tm = match kind {
+                                        "serial" => 5000,
+                                        "odk" => 10000,
+                                        _ => t,
+                                    };
+                                    let want = format!("ok 7,3,0,0,0 {}", tm);
+                                    if got != want {
+                                        out.fail(i, format!("C20 port after set-up is '{}', expected 19200 8N1 no flow control with timeout {} ms ('{}')", got, tm, want));
+                                    }
+                                } else if !got.starts_with("err ") {
+                                    out.fail(i, format!("C20 the port refused {} but the constructor did not return an error: '{}'", fail, got));
+                                }
+                            }
+                        }
+                    }
+                }
+            }
+        }
+    }
+}
+
+// ---------------------------------------------------------------------------------------------
+// C17 transparency
+
+fn small_pages(rng: &mut Rng, t: SignType, n: usize) -> String {
+    let (w, h) = t.dimensions();
+    if n == 0 {
+        return "-".into();
+    }
+    (0..n)
+        .map(|k| {
+            let mut p = flipdot_core::Page::new(flipdot_core::PageId(k as u8), w, h);
+            for _ in 0..4 {
+                p.set_pixel(rng.below(w as u64) as u32, rng.below(h as u64) as u32, true);
+            }
+            format!("h:{}", to_hex(p.as_bytes()))
+        })
+        .collect::<Vec<_>>()
+        .join(";")
+}
+
+pub fn c17(thorough: bool, rng: &mut Rng, out: &mut Out) {
+    out.rule = "operation sequences (configure / configure-if-needed, send 0..2 pages, show, load-next, send again, shut down, reconfigure as another type; also towards an absent address and after prior traffic) run twice on identical virtual buses: through Sign -> SerialSignBus -> in-memory byte pipe -> Odk -> VirtualSignBus and directly on the VirtualSignBus; per-operation success and the final state / type / pages of every sign must agree, and both must agree with the model (runVia / runOn); plus raw valid / unknown / invalid lines injected at the bridge; non-trivial = every case; distinct = distinct case line".into();
+    out.exhaustive_note = "sampling; the paced path sleeps 30 ms per chunk so sizes are kept small in quick".into();
+    // small sign types first: Dash30x7 (3 chunks/page), Rear23x10 (4), Rear30x10 (4), Side90x7 (6)
+    let types: Vec<usize> = if thorough { (0..11).collect() } else { vec![5, 4, 3] };
+    let reps = if thorough { 3 } else { 3 };
+    for rep in 0..reps {
+        for &ti in &types {
+            let t = TYPES[ti];
+            let style = if rng.chance(50) { "M" } else { "A" };
+            let a: u16 = if rng.chance(50) { rng.range(1, 120) as u16 } else { rng.next() as u16 };
+            let at = format!("{:04X},{}", a, ti);
+            let two = rng.chance(50);
+            let signs = if two { format!("{},{:04X};M,{:04X}", style, a, a ^ 0x0100) } else { format!("{},{:04X}", style, a) };
+            // prior traffic
+            let mut prior: Vec<Message<'static>> = vec![];
+            match rng.below(4) {
+                0 => {}
+                1 => prior.push(Message::RequestOperation(Address(a), flipdot_core::Operation::ReceiveConfig)),
+                2 => {
+                    prior.push(Message::RequestOperation(Address(a), flipdot_core::Operation::ReceiveConfig));
+                    prior.push(sd(0, &tiny_cfg(5, 7, false)));
+                    prior.push(Message::DataChunksSent(ChunkCount(1)));
+                    prior.push(Message::RequestOperation(Address(a), flipdot_core::Operation::ReceivePixels));
+                    prior.push(sd(0, &[1u8; 16]));
+                }
+                _ => prior.push(Message::RequestOperation(Address(a), flipdot_core::Operation::StartReset)),
+            }
+            let ptoks: Vec<String> = prior.iter().map(show_msg).collect();
+            let np = if thorough { rng.below(3) as usize } else { 1 };
+            let pages1 = small_pages(rng, t, np);
+            let first = if rep % 2 == 0 { "cfg" } else { "cfn" };
+            let mut ops = format!("{},{},- snd,{},{} shw,{},- nxt,{},-", first, at, at, pages1, at, at);
+            if thorough || rep == 0 {
+                ops.push_str(&format!(" snd,{},{} off,{},-", at, small_pages(rng, t, 1), at));
+            }
+            // an operation towards an address nobody has
+            ops.push_str(&format!(" shw,{:04X},{},-", a ^ 0x5555, ti));
+            let tail = format!("{} {} | {}", signs, ptoks.join(" "), ops).replace("  ", " ");
+            let i1 = out.case(format!("e2e serial {}", tail), true);
+            let i2 = out.case(format!("e2e direct {}", tail), true);
+            out.stat(&format!("e2e.type{}", ti));
+            let (s, d) = (out.impls[i1].clone(), out.impls[i2].clone());
+            let ps: Vec<&str> = s.split(" | ").collect();
+            let pd: Vec<&str> = d.split(" | ").collect();
+            if ps.len() != 2 || pd.len() != 2 {
+                out.fail(i1, format!("C17 run incomplete: serial '{}' direct '{}'", trunc(&s), trunc(&d)));
+                continue;
+            }
+            let succ = |x: &str| -> Vec<bool> { x.split(' ').map(|t| t.starts_with("ok")).collect() };
+            if succ(ps[0]) != succ(pd[0]) {
+                out.fail(i1, format!("C17 success over the wire {:?} differs from success directly on the bus {:?}", ps[0], pd[0]));
+            } else if ps[1] != pd[1] {
+                out.fail(i1, format!("C17 virtual signs end up different: over the wire {} / directly {}", ps[1], pd[1]));
+            }
+            // successful calls also return the same value (flip style)
+            for (x, y) in ps[0].split(' ').zip(pd[0].split(' ')) {
+                if x.starts_with("ok") && x != y {
+                    out.fail(i1, format!("C17 result over the wire {} differs from direct {}", x, y));
+                }
+            }
+        }
+    }
+    // raw lines at the bridge
+    let n = if thorough { 3000 } else { 400 };
+    for _ in 0..n {
+        let a = 3u16;
+        let mut prior: Vec<String> = vec![];
+        if rng.chance(50) {
+            prior.push(format!("RO,{:04X},0", a));
+        }
+        let mut stream: Vec<u8> = vec![];
+        let k = rng.range(1, 3) as usize;
+        let mut expect: Vec<Option<bool>> = vec![]; // Some(valid)
+        for _ in 0..k {
+            let (line, valid): (Vec<u8>, bool) = match rng.below(6) {
+                0 => (b":01000302XX\r\n".to_vec(), false),
+                1 => {
+                    let mut f = enc_nl(a, 2, &[0xFF]);
+                    let p = rng.below((f.len() - 2) as u64) as usize;
+                    f[p] = b'#';
+                    (f, false)
+                }
+                2 => (enc_nl(rng.next() as u16, rng.range(7, 255) as u8, &rng.bytes(2)), true),
+                3 => (enc_nl(a, 2, &[0xFF]), true),
+                4 => (enc_nl(a, 2, &[0x00]), true),
+                _ => (enc_nl(a ^ 1, 2, &[0xFF]), true),
+            };
+            stream.extend_from_slice(&line);
+            expect.push(Some(valid));
+        }
+        let wr = if rng.chance(10) { "e" } else { "" };
+        let line = format!("odk {} M,{:04X};A,{:04X} {} | d:{} | {}", k, a, a + 9, prior.join(" "), hex_of(&stream), wr).replace("  ", " ").trim_end().to_string();
+        let i = out.case(line, true);
+        let got = out.impls[i].clone();
+        let parts: Vec<&str> = got.split(" | ").collect();
+        if parts.len() != 3 {
+            out.fail(i, format!("C17 bridge run incomplete: {}", trunc(&got)));
+            continue;
+        }
+        for (r, e) in parts[0].split(" ; ").zip(expect.iter()) {
+            out.stat(&format!("odk.{}", r.split(' ').next().unwrap_or("")));
+            if *e == Some(false) && !r.starts_with("comm w=-") {
+                out.fail(i, format!("C17 a line the bridge cannot decode must be a communication error with nothing written: '{}'", r));
+            }
+            if *e == Some(true) && wr.is_empty() && !r.starts_with("ok") {
+                out.fail(i, format!("C17 a decodable line must be forwarded: '{}'", r));
+            }
+        }
+    }
+    let _ = (ADDRS, PageFlipStyle::Manual, Offset(0));
+}
